@@ -1,6 +1,12 @@
 import Model.Common.Proto
 import Model.Common.ECProto
 import Model.Common.GroupOps
+import Model.Common.HashProto
+import Model.C02.Ecdsa
+import Model.C02.Rfc6979
+import Model.C03.Schnorr
+import Generated.Ecdsa
+import Generated.Schnorr
 import Model.C04.Domain
 import Model.C04.Verdict
 import Model.C04.Switch
@@ -185,12 +191,57 @@ def op : List String → Option String
 
 end M
 
+/-! ## the models of the signature schemes (properties C02 and C03: the same definitions their theorems are about) -/
+namespace S
+open Btc.EC
+
+def o := EC.ops EC.secp256k1
+def H256 : Rfc6979.HashSpec := ⟨hmacSha256, 32⟩
+def prm : Schnorr.Params :=
+  let c := EC.secp256k1
+  let nlen := Py.natBitLength c.n.toNat
+  { pSize := (Py.natBitLength c.p.toNat + 7) / 8, nSize := (nlen + 7) / 8, nlen := nlen, hfLen := 32, TH := taggedHash }
+def FUEL : Nat := 10000
+
+def optInt? (s : String) : Option (Option Int) := if s == "-" then some none else (parseInt? s).map some
+
+def sig? (s : String) : Option (Int × Int) :=
+  match s.splitOn ":" with
+  | [r, t] => do pure (← parseInt? r, ← parseInt? t)
+  | _ => none
+
+def op : List String → Option String
+  -- dsa.sign_(msg, q, nonce, lower_s, grind=…, verify=…) without pub_key (lines carrying one are not sent here)
+  | ["dual.dsa.sign", m, q, k, ls, gr, _vf, "-"] => do
+    let m ← fromHex? m; let q ← parseInt? q; let k ← optInt? k; let ls ← bool? ls; let gr ← bool? gr
+    pure (match Rfc6979.signMsg o H256 m q k ls gr 4000 with
+          | .ok σ => s!"ok {σ.1} {σ.2}" | .err e => s!"err {e.name}" | .fuel => "err fuel")
+  | ["dual.dsa.signrec", m, q, k, ls] => do
+    let m ← fromHex? m; let q ← parseInt? q; let k ← optInt? k; let ls ← bool? ls
+    pure (match Rfc6979.signRecMsg o H256 m q k ls 4000 with
+          | .ok σ => s!"ok {σ.1} {σ.2.1} {σ.2.2}" | .err e => s!"err {e.name}" | .fuel => "err fuel")
+  | ["dual.ssa.sign", m, q, aux, vf] => do
+    let m ← fromHex? m; let q ← parseInt? q; let aux ← fromHex? aux; let vf ← bool? vf
+    pure (match (if vf then Schnorr.signChecked o prm FUEL m q aux else Schnorr.sign o prm FUEL m q aux) with
+          | .ok sg => s!"ok {sg.r} {sg.s}" | .error e => s!"err {e.name}")
+  -- ssa.assert_as_valid_(msg, 32-byte x-only key, Sig(r, s))
+  | ["dual.ssa.assert", m, x, sg] => do
+    let m ← fromHex? m; let x ← fromHex? x; let (r, t) ← sig? sg
+    if x.length ≠ 32 then none else
+    pure (match Schnorr.assertAsValid o prm m (ofBE x) ⟨r, t⟩ with | .ok _ => "ok None" | .error e => s!"err {e.name}")
+  | _ => none
+
+end S
+
 def handle (toks : List String) : String :=
   match toks with
   | "gen" :: "Backend" :: fn :: args => (Gen.Backend.dispatch fn args).getD "bad-op"
   | "guard" :: rest => (guardOp rest).getD "bad-op"
   | "verdict" :: rest => (verdictOp rest).getD "bad-op"
   | "sites" :: _ => "ok " ++ " ".intercalate (Gen.BackendSites.SiteId.all.map (·.name))
-  | _ => (M.op toks).getD "bad-op"
+  | _ =>
+    match M.op toks with
+    | some r => r
+    | none => (S.op toks).getD "no-model"
 
 def main : IO Unit := runLoop handle
